@@ -90,3 +90,66 @@ def candidate_thresholds(S, T):
     c += [linf(p, q) for p in S for q in T]
     c += [diag_half(p) for p in S] + [diag_half(q) for q in T]
     return c
+
+
+# ------------------------------------------------------------------------------------------------
+# Reference values for LARGE diagrams (no brute force possible): independent of persim's bisection
+# and of the hopcroftkarp package - threshold search with scipy's bipartite matching, and the
+# assignment problem on an independently built cost matrix.
+# ------------------------------------------------------------------------------------------------
+def _cost_matrix(S, T, pair_cost_matrix, diag_cost):
+    import numpy as np
+
+    S = np.asarray(S, dtype=float).reshape(-1, 2)
+    T = np.asarray(T, dtype=float).reshape(-1, 2)
+    m, n = len(S), len(T)
+    C = np.zeros((m + n, m + n))
+    C[:m, :n] = pair_cost_matrix(S, T)
+    C[:m, n:] = np.inf
+    C[m:, :n] = np.inf
+    for i in range(m):
+        C[i, n + i] = diag_cost(S[i])
+    for j in range(n):
+        C[m + j, j] = diag_cost(T[j])
+    return C
+
+
+def bottleneck_large_ref(S, T):
+    import numpy as np
+    from scipy.sparse import csr_matrix
+    from scipy.sparse.csgraph import maximum_bipartite_matching
+
+    C = _cost_matrix(S, T, lambda A, B: np.maximum(np.abs(A[:, None, 0] - B[None, :, 0]), np.abs(A[:, None, 1] - B[None, :, 1])),
+                     lambda p: (p[1] - p[0]) / 2.0)
+    if C.size == 0:
+        return 0.0
+    vals = np.unique(C[np.isfinite(C)])
+    lo, hi = 0, len(vals) - 1
+    size = C.shape[0]
+
+    def feasible(d):
+        g = csr_matrix((C <= d).astype(np.int8))
+        match = maximum_bipartite_matching(g, perm_type="column")
+        return int((match >= 0).sum()) == size
+
+    while lo < hi:
+        mid = (lo + hi) // 2
+        if feasible(vals[mid]):
+            hi = mid
+        else:
+            lo = mid + 1
+    return float(vals[lo])
+
+
+def wasserstein_large_ref(S, T):
+    import numpy as np
+    from scipy.optimize import linear_sum_assignment
+
+    C = _cost_matrix(S, T, lambda A, B: np.sqrt((A[:, None, 0] - B[None, :, 0]) ** 2 + (A[:, None, 1] - B[None, :, 1]) ** 2),
+                     lambda p: (p[1] - p[0]) / np.sqrt(2.0))
+    if C.size == 0:
+        return 0.0
+    big = 1e6 * (1.0 + np.nanmax(C[np.isfinite(C)]))
+    C2 = np.where(np.isfinite(C), C, big)
+    r, c = linear_sum_assignment(C2)
+    return float(C2[r, c].sum())
